@@ -35,7 +35,7 @@ ASSUMPTIONS = [
     "the clock of validity checks is admin.certificate_v2.datetime, replaced by a fixed instant",
 ]
 CORR = ["flip", "flip", "flip", "other-key", "window", "reparent", "wrong-root", "swap-certs",
-        "p384-leaf", "k1-leaf", "p384-inter", "boundary-window", "rekey-att"]
+        "p384-leaf", "k1-leaf", "p384-inter", "boundary-window", "rekey-att", "bundled-root"]
 FLIP_FIELDS = {"quote": ["message", "custom_data", "signature"],
                "attestation": ["message", "key", "auth_data", "signature"]}
 REQUIRED_LABELS = {t: ["valid", "invalid:quote", "invalid:attestation",
@@ -177,6 +177,20 @@ def apply(c):
                         "message": certs.der_to_b64(certs.cert_der(certs.make_cert(
                             "root", other.public_key(), "root", other, "long")))}
             broken.add(v.chain[-1])
+        elif kind == "bundled-root":
+            # the whole chain hangs off a foreign root, which the file carries along as an
+            # element named like the root of trust; the caller's root of trust is the genuine one
+            top = v.chain[-1]
+            if not claim(top):
+                continue
+            other = certs.p256_key(k["key"], role="foreignroot")
+            els[top]["message"] = certs.der_to_b64(certs.cert_der(certs.make_cert(
+                top, v.keys[top].public_key(), "root", other, windows.get(top, "valid"))))
+            doc["elements"].append({
+                "name": "sgx_root", "type": "x509_pem", "signed_by": "sgx_root",
+                "message": certs.der_to_b64(certs.cert_der(certs.make_cert(
+                    "root", other.public_key(), "root", other, "long")))})
+            broken.add(top)
         elif kind == "swap-certs":
             if len(v.chain) >= 2 and not claim(v.chain[-1], v.chain[-2]):
                 continue
